@@ -175,6 +175,12 @@ func (msg MsgInitiateTokenWithdrawal) Validate(ac address.Codec) error {
 		return ErrInvalidAmount
 	}
 
+	// the L1 withdrawal leaf commits the amount as uint64; a larger withdrawal
+	// would burn the tokens here and could never be finalized on L1.
+	if !msg.Amount.Amount.IsUint64() {
+		return ErrInvalidAmount.Wrap("amount exceeds 64 bits")
+	}
+
 	return nil
 }
 
